@@ -346,6 +346,75 @@ Example ex_internal_lro :
   client_output true (Lro "a.R" "a.M") = Some (ReturnsFuture (emit_wrap true "a.R" "a.M")).
 Proof. repeat split. Qed.
 
+(* ------------------------------------------------------------------ http_options of the REST operations client *)
+Lemma usable_In : forall bs b, In b (usable bs) <-> In (Some b) bs.
+Proof.
+  induction bs as [|o bs IH]; intro b; simpl; [reflexivity|].
+  destruct o as [b'|]; simpl; rewrite IH; split.
+  - intros [H|H]; [left; now subst | now right].
+  - intros [H|H]; [left; now inversion H | now right].
+  - intro H. now right.
+  - intros [H|H]; [discriminate | exact H].
+Qed.
+
+(* every binding of every Operations rule -- the primary one and each additional one -- is printed under the rule's
+   selector; nothing else is printed *)
+Lemma ops_http_options_complete : forall rules sel pb,
+  (exists bs, In (sel, bs) (ops_http_options rules) /\ In pb bs) <->
+  (exists r b, In r rules /\ hr_selector r = sel /\ starts_with OPERATIONS_PREFIX sel = true /\
+               In (Some b) (hr_bindings r) /\ pb = print_binding b).
+Proof.
+  intros rules sel pb. unfold ops_http_options. split.
+  - intros [bs [Hin Hpb]]. apply in_map_iff in Hin. destruct Hin as [r [E Hr]]. inversion E. subst sel bs.
+    apply filter_In in Hr. destruct Hr as [Hr Hs]. apply in_map_iff in Hpb. destruct Hpb as [b [Eb Hb]].
+    exists r, b. repeat split; auto. now apply usable_In.
+  - intros [r [b [Hr [Es [Hs [Hb Epb]]]]]]. subst sel pb.
+    exists (map print_binding (usable (hr_bindings r))). split.
+    + apply in_map_iff. exists r. split; [reflexivity|]. apply filter_In. split; [exact Hr | exact Hs].
+    + apply in_map. now apply usable_In.
+Qed.
+
+(* one entry per rule, in the order of the rules; bindings in their order: primary first *)
+Lemma ops_http_options_order : forall rules,
+  map fst (ops_http_options rules) = map hr_selector (filter is_operations_rule rules) /\
+  (forall r, In r rules -> is_operations_rule r = true ->
+     In (hr_selector r, map print_binding (usable (hr_bindings r))) (ops_http_options rules)).
+Proof.
+  intro rules. unfold ops_http_options. split.
+  - rewrite map_map. reflexivity.
+  - intros r Hr Hs. apply in_map_iff. exists r. split; [reflexivity|]. now apply filter_In.
+Qed.
+
+(* distinct selectors in the YAML give distinct keys: no entry can shadow another in the printed dict *)
+Lemma filter_NoDup_map : forall (A B : Type) (f : A -> B) (p : A -> bool) (l : list A),
+  NoDup (map f l) -> NoDup (map f (filter p l)).
+Proof.
+  intros A B f p l. induction l as [|x l IH]; simpl; intro H; [constructor|].
+  inversion H as [|? ? Hx Hl]; subst. destruct (p x); simpl; [|now apply IH].
+  constructor; [|now apply IH]. intro K. apply Hx. apply in_map_iff in K. destruct K as [y [E Hy]].
+  apply in_map_iff. exists y. split; [exact E|]. apply filter_In in Hy. tauto.
+Qed.
+
+Lemma ops_http_options_keys_distinct : forall rules,
+  NoDup (map hr_selector rules) -> NoDup (map fst (ops_http_options rules)).
+Proof.
+  intros rules H. destruct (ops_http_options_order rules) as [E _]. rewrite E. now apply filter_NoDup_map.
+Qed.
+
+Example ex_ops_http_options :
+  let get := mkHR "google.longrunning.Operations.GetOperation"
+               [Some (mkB "get" "/v1/{name=projects/*/operations/*}" ""); Some (mkB "get" "/v1/{name=organizations/*/operations/*}" "");
+                None; Some (mkB "get" "/v1/{name=folders/*/operations/*}" "")] in
+  let cancel := mkHR "google.longrunning.Operations.CancelOperation" [Some (mkB "post" "/v1/{name=projects/*/operations/*}:cancel" "*")] in
+  let other := mkHR "google.cloud.location.Locations.GetLocation" [Some (mkB "get" "/v1/{name=projects/*/locations/*}" "")] in
+  ops_http_options [get; other; cancel] =
+    [("google.longrunning.Operations.GetOperation",
+      [mkPB "get" "/v1/{name=projects/*/operations/*}" None; mkPB "get" "/v1/{name=organizations/*/operations/*}" None;
+       mkPB "get" "/v1/{name=folders/*/operations/*}" None]);
+     ("google.longrunning.Operations.CancelOperation", [mkPB "post" "/v1/{name=projects/*/operations/*}:cancel" (Some "*")])]
+  /\ NoDup (map hr_selector [get; other; cancel]).
+Proof. split; [reflexivity|]. repeat constructor; simpl; intuition discriminate. Qed.
+
 (* ------------------------------------------------------------------ non-vacuity *)
 Definition ex_files : list file :=
   [ mkFile "google/example/lro/v1/svc.proto" "google.example.lro.v1" ["google/longrunning/operations.proto"]
